@@ -19,12 +19,14 @@ REGISTRY = [
     {'name': 'exc', 'params': [P('tag')], 'flavour': 'coro', 'ctx': 'none'},
     {'name': 'plain', 'params': [P('tag')], 'flavour': 'func', 'ctx': 'none'},
     {'name': 'v.view', 'params': [P('tag')], 'flavour': 'aview', 'ctx': 'view'},
+    # a context-less class based view that keeps per-request scratch state on self across its suspension points
+    {'name': 'w.scratch', 'params': [P('tag')], 'flavour': 'aview', 'ctx': 'none', 'scratch': True},
 ]
 BEHAVIOURS = {
     'rpc': {'kind': 'raise_rpc', 'error': {'cls': 'JsonRpcError', 'code': 7, 'message': 'seven', 'data': {'value': None}}},
     'exc': {'kind': 'raise_exc', 'exc': 'RuntimeError', 'marker': 'MARKER-c10'},
 }
-METHODS = ['ret', 'rpc', 'exc', 'plain', 'v.view', 'nope']
+METHODS = ['ret', 'rpc', 'exc', 'plain', 'v.view', 'nope', 'w.scratch', 'w.scratch']
 
 
 def build_text(elements: List[Dict[str, Any]]) -> str:
@@ -56,7 +58,7 @@ class C10(Check):
     chunk = 60
     rule = (
         "cases: batches of 2..4 elements, each a call or notification to a coroutine that returns / raises a protocol error / raises an "
-        "exception (0..2 suspension points each), a plain non-coroutine function, an async class based view method or an unknown method; "
+        "exception (0..2 suspension points each), a plain non-coroutine function, an async class based view method (with constructor context, and context-less using self as per-request scratch space) or an unknown method; "
         "optional middleware and generic error handler with 0..1 suspension points each; concurrent_batch on / off. For every case ALL "
         "interleavings are enumerated by DFS over 'which parked coroutine resumes next' under a harness-owned event-loop scheduler (up to "
         "2520 for 4 x 2; cases whose total suspension points exceed the tier bound follow the sampled schedules drawn by Hypothesis). Oracle "
@@ -72,7 +74,7 @@ class C10(Check):
     ]
     trusted_base = ['pbt/sched.py', 'pbt/refserver.py', 'CPython asyncio']
     required_classes = ['mode/concurrent', 'mode/sequential', 'schedules/exhaustive', 'el/notification', 'el/plain', 'el/rpc', 'el/exc',
-                        'el/nope', 'mw/suspends', 'eh/suspends', 'reorder-possible']
+                        'el/nope', 'el/w.scratch', 'mw/suspends', 'eh/suspends', 'reorder-possible']
 
     def max_points(self, tier: str) -> int:
         return 6 if tier == 'quick' else 8
@@ -113,6 +115,7 @@ class C10(Check):
                 {'concurrent': conc, 'elements': [c('v.view', 1), c('nope', 0), c('ret', 2, 'notification')], 'mw_suspend': 0, 'eh_suspend': 1, 'schedule': 'all'},
             ]
         out.append({'concurrent': True, 'elements': [c('ret', 2), c('rpc', 2), c('exc', 2), c('ret', 2)], 'mw_suspend': None, 'eh_suspend': None, 'schedule': 'all'})
+        out.append({'concurrent': True, 'elements': [c('w.scratch', 2), c('w.scratch', 1), c('w.scratch', 2, 'notification')], 'mw_suspend': None, 'eh_suspend': None, 'schedule': 'all'})
         return out
 
     # ---- one schedule -----------------------------------------------------------------------------------
